@@ -200,25 +200,26 @@ def bytesToken (f : File) : String :=
     let b := ReflWire.encFile f
     if b.length ≤ 96 then hex b else "h" ++ hex64 (ReflWire.fnv1a b)
 
-def indexOf (files : List File) (f : File) : String :=
-  match files.findIdx? (fun g => decide (g = f)) with
-  | some i => s!"fd {i} {bytesToken f}"
+/-- `files` paired with their (precomputed) bytes tokens -/
+def indexOf (files : List (File × String)) (f : File) : String :=
+  match files.findIdx? (fun g => decide (g.1 = f)) with
+  | some i => s!"fd {i} {(files[i]?.map (·.2)).getD "-"}"
   | none => "fd-unknown"
 
-def answerText (files : List File) : Reflection.Answer → List String
+def answerText (files : List (File × String)) : Reflection.Answer → List String
   | .fileDescriptor f => [indexOf files f]
   | .extensionNumbers => ["ext-empty"]
   | .services l => [s!"svcs {l.length}"] ++ l.map hex
 
 /-- `r1`: the i-th response carries the i-th request's host and the request itself -/
-def responseTexts (files : List File) : List Reflection.Request → List Reflection.Response → List String
+def responseTexts (files : List (File × String)) : List Reflection.Request → List Reflection.Response → List String
   | rq :: rqs, rs :: rss =>
     (if decide (rs.validHost = rq.host) && decide (rs.originalRequest = rq) then "r1" else "r0")
       :: answerText files rs.answer ++ responseTexts files rqs rss
   | [], rs :: rss => "r0" :: answerText files rs.answer ++ responseTexts files [] rss
   | _, [] => []
 
-def streamText (files : List File) (st : Reflection.State) (reqs : List Reflection.Request) : List String :=
+def streamText (files : List (File × String)) (st : Reflection.State) (reqs : List Reflection.Request) : List String :=
   let (as, fin) := Reflection.runStream st reqs
   ["["] ++ responseTexts files reqs as ++
     (match fin with
@@ -231,7 +232,8 @@ def modelVersion (c : Case) (own : Option File) : String :=
   match Reflection.build cfg with
   | .error e => errText e
   | .ok st =>
-    String.intercalate " " ("ok" :: (c.streams.map (streamText (allFiles c own) st)).flatten)
+    let files := (allFiles c own).map (fun f => (f, bytesToken f))
+    String.intercalate " " ("ok" :: (c.streams.map (streamText files st)).flatten)
 
 /-! ### observed side -/
 
